@@ -44,7 +44,9 @@ def spec_format(x, dec, thou, digits, remove_zero, rounding):
         groups.insert(0, ip[-3:])
         ip = ip[:-3]
     groups.insert(0, ip)
-    out = ("-" if x < 0 else "") + thou.join(groups)
+    # the sign belongs to the ROUNDED value: a negative number whose printed digits are all zero is printed without '-'
+    # (otherwise '-0,00' typed back would print '0,00': C15); see DESIGN.md §7 C07
+    out = ("-" if x < 0 and set(s) - {"0", "."} else "") + thou.join(groups)
     if fp and not (remove_zero and set(fp) <= {"0"}):
         out += dec + fp
     return out
